@@ -11,7 +11,7 @@ use std::rc::Rc;
 
 pub struct C20;
 
-const NETWORKS: [&str; 7] = ["mainnet", "bitcoin", "signet", "testnet", "testnet4", "regtest", "weird"];
+const NETWORKS: [&str; 8] = ["mainnet", "bitcoin", "signet", "testnet", "testnet4", "regtest", "weird", ""];
 
 fn configs() -> Vec<(&'static str, bool)> {
     let mut v = vec![];
@@ -175,16 +175,31 @@ fn run_creator(ci: usize) -> (Option<Violation>, Stats, String) {
     // 2. tampered / missing version records
     let keys = brc20_prog::verif::config_keys();
     for (ki, key) in keys.iter().enumerate() {
-        for action in ["remove", "alter"] {
+        // removed, or altered to several other values (numeric and not, for every key)
+        let alternatives: Vec<&str> = match ki {
+            0 | 1 => vec!["999", "0", "v-next", "", "7a", "-1", " 7"],
+            2 => vec!["another-network", "", "Signet "],
+            _ => vec!["flipped", "", "TRUE", "1"],
+        };
+        let mut actions: Vec<(&str, Option<String>)> = vec![("remove", None)];
+        for a in alternatives {
+            let v = if a == "flipped" { (!creator.1).to_string() } else { a.to_string() };
+            actions.push(("alter", Some(v)));
+        }
+        for (action, newv) in actions {
+            // a value equal to the recorded one is not a tamper
+            let recorded = match ki {
+                0 => brc20_prog::verif::versions().1.to_string(),
+                1 => brc20_prog::verif::versions().0.to_string(),
+                2 => creator.0.to_string(),
+                _ => creator.1.to_string(),
+            };
+            if newv.as_deref() == Some(recorded.as_str()) {
+                continue;
+            }
             let d = fresh_dir("c20-tamper");
             let _ = std::fs::remove_dir_all(&d);
             let _ = copy_dir(&base, &d);
-            let newv = match (action, ki) {
-                ("remove", _) => None,
-                (_, 0) | (_, 1) => Some("999".to_string()),
-                (_, 2) => Some("another-network".to_string()),
-                _ => Some((!creator.1).to_string()),
-            };
             if let Err(e) = tamper(&d, key, newv.as_deref()) {
                 cleanup(&[&base, &d]);
                 return (Some(Violation::new("harness/tamper", json!({"error": e}))), stats, tr);
@@ -305,7 +320,7 @@ impl Prop for C20 {
         "fault_enumeration"
     }
     fn runs(&self, _tier: Tier) -> u64 {
-        14
+        16
     }
     fn exhaustive(&self) -> bool {
         true
@@ -314,11 +329,11 @@ impl Prop for C20 {
         400
     }
     fn generate(&self, seed: u64, _tier: Tier) -> Value {
-        json!({"creator": seed % 14, "seed": seed})
+        json!({"creator": seed % 16, "seed": seed})
     }
     fn case_for_run(&self, i: u64, seed: u64, _tier: Tier) -> Value {
         // run i of the batch = creating configuration i
-        json!({"creator": i % 14, "seed": seed})
+        json!({"creator": i % 16, "seed": seed})
     }
     fn evaluations_from(&self) -> Option<&'static str> {
         Some("start_attempts")
@@ -327,7 +342,7 @@ impl Prop for C20 {
         vec![]
     }
     fn rule(&self) -> String {
-        "case = one creating configuration out of networks {mainnet, bitcoin, signet, testnet, testnet4, regtest, weird} x traces {off,on} (run i of the batch takes configuration i: 14 runs = all of them). With the real start(): create + populate + commit + stop; then (1) reopen a copy under each of the 14 configurations: identical => starts and serves the same digest, different => start fails and the original configuration still reopens with the same digest; (2) each of the 4 recorded keys removed / altered directly in the config RocksDB => start fails; (3) populated directory without config database, foreign non-empty directory => start fails; (4) every write of the first-run recording is a crash point: the restart either fails or runs with the complete record, and a different configuration is never accepted by the half-recorded directory. distinct = creating configuration; non-trivial = all four groups ran".into()
+        "case = one creating configuration out of networks {mainnet, bitcoin, signet, testnet, testnet4, regtest, weird, empty string} x traces {off,on} (run i of the batch takes configuration i: 16 runs = all of them). With the real start(): create + populate + commit + stop; then (1) reopen a copy under each of the 16 configurations: identical => starts and serves the same digest, different => start fails and the original configuration still reopens with the same digest; (2) each of the 4 recorded keys removed / altered (to other numbers, non-numeric text, empty, padded, other case) directly in the config RocksDB => start fails; (3) populated directory without config database, foreign non-empty directory => start fails; (4) every write of the first-run recording is a crash point: the restart either fails or runs with the complete record, and a different configuration is never accepted by the half-recorded directory. distinct = creating configuration; non-trivial = all four groups ran".into()
     }
     fn assumptions(&self) -> Vec<String> {
         vec!["PROTOCOL_VERSION / DB_VERSION cannot vary within one build; they are varied by tampering with the stored record".into()]
@@ -338,6 +353,6 @@ impl Prop for C20 {
     fn execute(&self, case: &Value) -> RunOut {
         let ci = case["creator"].as_u64().unwrap_or(0) as usize;
         let (violation, stats, tr) = run_creator(ci);
-        RunOut { digest: sha_hex(&format!("creator-{}", ci % 14)), nontrivial: violation.is_none(), stats, sim_ms: 0, violation, transcript: sha_hex(&tr), states: vec![] }
+        RunOut { digest: sha_hex(&format!("creator-{}", ci % 16)), nontrivial: violation.is_none(), stats, sim_ms: 0, violation, transcript: sha_hex(&tr), states: vec![] }
     }
 }
